@@ -119,6 +119,7 @@ func chanUses(p *Prog, f *types.Var) []chanUse {
 
 func c18(r *Report, s *Sem) {
 	p := r.P
+	defer r.Import(s, "C15", "K", "R13", "closing with a stalled client still winds the session down: the TCP write wrapper re-checks its context on every retry (checked once before the loop, the finishing write of a session whose client stopped reading spins for ever and the finished callback never fires)", 2, "(K2)")
 	R12 := r.Rule("R12", "stops its own listener and no other: a listener that registers itself in a package-level table removes, in Close, the entry under a field that its Listen stored from the very key it registered under", 1)
 	defer checkUnregistersWhatItRegistered(r, s, R12)
 	defer r.Import(s, "C15", "D", "R11", "closing mid-handshake leaves no goroutine behind: a cancelled TLS upgrade is aborted at once — the watcher forces the deadline on the connection object the handshake runs on, and the fallback deadline is bounded by the poll interval", 1, "TLS")
